@@ -91,9 +91,17 @@ func (s EncoderConfig) apply(d *EncoderConfig) {
 }
 
 func (s EncoderConfig) newEncoder(w io.Writer) (*Encoder, error) {
+	var prefixes iri.PrefixMappingList
+
+	for _, mapping := range s.prefixes {
+		if isPrefixTerm(mapping) {
+			prefixes = append(prefixes, mapping)
+		}
+	}
+
 	e := &Encoder{
 		w:                json.NewEncoder(w),
-		prefixes:         iriutil.NewUsagePrefixMapper(iri.NewPrefixManager(s.prefixes)),
+		prefixes:         iriutil.NewUsagePrefixMapper(iri.NewPrefixManager(prefixes)),
 		bnStringProvider: s.bnStringProvider,
 		builder:          rdfdescription.NewDatasetResourceListBuilder(),
 	}
